@@ -2,9 +2,16 @@ package main
 
 import (
 	"bytes"
+	"context"
 	"fmt"
+	"io"
+	"log"
+	"net"
 	"time"
 	"unsafe"
+
+	"github.com/gopcua/opcua"
+	"github.com/gopcua/opcua/server"
 
 	"github.com/gopcua/opcua/ua"
 	"github.com/gopcua/opcua/uasc"
@@ -210,5 +217,111 @@ func c20(seed uint64, n int, replay string) {
 		for _, mode := range []ua.MessageSecurityMode{ua.MessageSecurityModeNone, ua.MessageSecurityModeSign, ua.MessageSecurityModeSignAndEncrypt} {
 			enc.Encode(c20run(r, fmt.Sprintf("h%d-m%d", i, mode), mode, r.Range(2, 6)))
 		}
+	}
+	c20server(r, 6*n)
+}
+
+// c20srv: the real server loop. A client writes a ByteString (single-chunk request, mode None) which the server keeps as
+// the node's value; after more traffic on the same and on another connection the value is read back.
+type c20srvObs struct {
+	Name  string `json:"name"`
+	Round int    `json:"round"`
+	Len   int    `json:"len"`
+	Sent  string `json:"sent"`
+	Read  string `json:"read"`
+	Err   string `json:"err,omitempty"`
+	OK    bool   `json:"ok"`
+	Other int    `json:"other_requests"`
+}
+
+func c20server(r *rng.R, n int) {
+	log.SetOutput(io.Discard)
+	l, err := net.Listen("tcp", "127.0.0.1:0")
+	if err != nil {
+		panic(err)
+	}
+	port := l.Addr().(*net.TCPAddr).Port
+	l.Close()
+	s := server.New(server.EnableSecurity("None", ua.MessageSecurityModeNone), server.EnableAuthMode(ua.UserTokenTypeAnonymous), server.EndPoint("localhost", port))
+	ns := server.NewMapNamespace(s, "verifmap")
+	for k := 0; k < 4; k++ {
+		ns.Data[fmt.Sprintf("bs%d", k)] = []byte{byte(k)}
+	}
+	ctx := context.Background()
+	if err := s.Start(ctx); err != nil {
+		panic(err)
+	}
+	defer s.Close()
+	url := fmt.Sprintf("opc.tcp://localhost:%d", port)
+	dial := func() *opcua.Client {
+		c, err := opcua.NewClient(url, opcua.SecurityMode(ua.MessageSecurityModeNone))
+		if err != nil {
+			panic(err)
+		}
+		cctx, cancel := context.WithTimeout(ctx, 10*time.Second)
+		defer cancel()
+		if err := c.Connect(cctx); err != nil {
+			panic(err)
+		}
+		return c
+	}
+	c1, c2 := dial(), dial()
+	defer c1.Close(ctx)
+	defer c2.Close(ctx)
+	write := func(c *opcua.Client, key string, payload []byte) error {
+		resp, err := c.Write(ctx, &ua.WriteRequest{NodesToWrite: []*ua.WriteValue{{NodeID: ua.NewStringNodeID(ns.ID(), key), AttributeID: ua.AttributeIDValue,
+			Value: &ua.DataValue{EncodingMask: ua.DataValueValue, Value: ua.MustVariant(payload)}}}})
+		if err != nil {
+			return err
+		}
+		if len(resp.Results) != 1 || resp.Results[0] != ua.StatusOK {
+			return fmt.Errorf("write status %v", resp.Results)
+		}
+		return nil
+	}
+	read := func(c *opcua.Client, key string) ([]byte, error) {
+		resp, err := c.Read(ctx, &ua.ReadRequest{NodesToRead: []*ua.ReadValueID{{NodeID: ua.NewStringNodeID(ns.ID(), key), AttributeID: ua.AttributeIDValue}}, TimestampsToReturn: ua.TimestampsToReturnNeither})
+		if err != nil {
+			return nil, err
+		}
+		if len(resp.Results) != 1 || resp.Results[0].Value == nil {
+			return nil, fmt.Errorf("read: no value (%v)", resp.Results)
+		}
+		b, _ := resp.Results[0].Value.Value().([]byte)
+		return b, nil
+	}
+	for i := 0; i < n; i++ {
+		payload := r.Bytes(r.Pick(1, 16, 100, 1000, 4000))
+		o := c20srvObs{Name: "server", Round: i, Len: len(payload), Sent: hx(payload)}
+		if len(o.Sent) > 80 {
+			o.Sent = o.Sent[:80] + "..."
+		}
+		if err := write(c1, "bs0", payload); err != nil {
+			o.Err = err.Error()
+			enc.Encode(o)
+			continue
+		}
+		// later traffic on the same and on another connection
+		for k := 0; k < r.Range(2, 6); k++ {
+			switch r.Intn(3) {
+			case 0:
+				write(c2, "bs1", r.Bytes(len(payload)))
+			case 1:
+				write(c1, "bs2", r.Bytes(r.Pick(1, 50, len(payload))))
+			default:
+				read(c2, "bs3")
+			}
+			o.Other++
+		}
+		got, err := read(c1, "bs0")
+		if err != nil {
+			o.Err = err.Error()
+		}
+		o.Read = hx(got)
+		if len(o.Read) > 80 {
+			o.Read = o.Read[:80] + "..."
+		}
+		o.OK = err == nil && bytes.Equal(got, payload)
+		enc.Encode(o)
 	}
 }
